@@ -145,6 +145,17 @@ def concurrenceArg {α : Type} [Add α] [Zero α] [One α] [Neg α] [Mul α] [Co
     Nat → Nat → α :=
   matMul 4 (matMul 4 S (spinFlip ρ)) S
 
+/-! ### pure-state concurrence (`eof.py:37-57`) -/
+
+/-- `get_concurrence_pure(psi)` for `psi` of shape `(dA,dB)` (both > 1) returns `np.sqrt` of this number:
+`tmp0 = psi @ psi.conj().T` if `dA < dB` else `psi.conj().T @ psi`, `tmp2 = np.vdot(tmp0, tmp0)`, radicand `2*(1-tmp2)` -/
+def concPureRadicand {α : Type} [Add α] [Zero α] [One α] [Sub α] [Mul α] [Conj α] (dA dB : Nat) (ψ : Nat → Nat → α) : α :=
+  let m := if dA < dB then dA else dB
+  let T : Nat → Nat → α :=
+    if dA < dB then fun i j => sumRange dB fun b => ψ i b * conj (ψ j b)
+    else fun i j => sumRange dA fun a => conj (ψ a i) * ψ a j
+  (1 + 1) * (1 - sumRange m fun i => sumRange m fun j => conj (T i j) * T i j)
+
 /-! ### the ensemble contraction of the convex-roof models
 (`eof.py:156-161,223-228`, `measure.py:226-231`) -/
 
